@@ -45,11 +45,19 @@ func (e *Engine) cmpSeq(what string, got []atree.Value, want []MV) error {
 	return nil
 }
 
+// iterLimit bounds every collecting callback: an enumeration that cycles (never ends) must become a length
+// mismatch, not a hang.
+const iterLimitSlack = 2
+
 func collectArr(it func(atree.ArrayIterationFunc) error) ([]atree.Value, error) {
+	return collectArrN(it, 1<<40)
+}
+
+func collectArrN(it func(atree.ArrayIterationFunc) error, limit int) ([]atree.Value, error) {
 	var out []atree.Value
 	err := it(func(v atree.Value) (bool, error) {
 		out = append(out, v)
-		return true, nil
+		return len(out) < limit, nil
 	})
 	return out, err
 }
@@ -60,6 +68,9 @@ func (e *Engine) checkArrayIterators(n *Node, salt uint64) error {
 	cnt := uint64(len(want))
 	name := fmt.Sprintf("array#%d", n.ID)
 
+	collectArr := func(it func(atree.ArrayIterationFunc) error) ([]atree.Value, error) {
+		return collectArrN(it, len(want)+iterLimitSlack)
+	}
 	got, err := collectArr(a.IterateReadOnly)
 	if err != nil {
 		return e.viol("%s IterateReadOnly failed: %v", name, err)
@@ -315,11 +326,12 @@ func (e *Engine) checkMapIterators(n *Node) error {
 		}
 		return nil
 	}
+	limit := len(order) + iterLimitSlack // an enumeration that cycles becomes a length mismatch, not a hang
 	pairs := func(it func(atree.MapEntryIterationFunc) error) ([]kv, error) {
 		var out []kv
 		err := it(func(k, v atree.Value) (bool, error) {
 			out = append(out, kv{k, v})
-			return true, nil
+			return len(out) < limit, nil
 		})
 		return out, err
 	}
@@ -327,7 +339,7 @@ func (e *Engine) checkMapIterators(n *Node) error {
 		var out []atree.Value
 		err := it(func(v atree.Value) (bool, error) {
 			out = append(out, v)
-			return true, nil
+			return len(out) < limit, nil
 		})
 		return out, err
 	}
